@@ -236,3 +236,58 @@ Proof.
 Qed.
 
 End Generic.
+
+(** ---------- clean slate up to a detector-supplied relation on epoch states ----------
+    Used when reset() carries something over from a state that the twin does not share
+    (CUSUM keeps its whole stream and re-estimates from the last burn_in observations). *)
+Section RelTwin.
+Variable K : kernel.
+Variable erel : Z -> E K -> E K -> Prop.      (* indexed by samples_since_reset *)
+Variable drift_ok : Z -> Prop.                (* what is known about [since] when drift is reported *)
+Hypothesis step_rel : forall n e1 e2 x, 0 <= n -> erel n e1 e2 ->
+  snd (step_e K e1 (n + 1) x) = snd (step_e K e2 (n + 1) x) /\
+  erel (n + 1) (fst (step_e K e1 (n + 1) x)) (fst (step_e K e2 (n + 1) x)).
+Hypothesis reset_rel : forall n e1 e2, erel n e1 e2 -> drift_ok n -> erel 0 (reset_e K e1) (reset_e K e2).
+Hypothesis drift_needs : forall e n x, snd (step_e K e n x) = Some DDrift -> drift_ok n.
+
+Definition rtwin (k : Z) (a b : st K) : Prop :=
+  erel (since b) (epoch a) (epoch b) /\ since a = since b /\ ds a = ds b /\ total a = total b + k
+  /\ recs a = shift_recs k (recs b) /\ 0 <= since b /\ (ds b = DDrift -> drift_ok (since b)).
+
+Lemma pre_rtwin k a b : rtwin k a b -> rtwin k (pre K a) (pre K b) /\ ds (pre K b) <> DDrift.
+Proof.
+  intros (He & Hs & Hd & Ht & Hr & Hn & Hok). unfold pre. rewrite Hd.
+  destruct (is_drift (ds b)) eqn:Ed.
+  - assert (Hdb : ds b = DDrift) by (destruct (ds b); simpl in Ed; congruence).
+    split; [|simpl; congruence].
+    unfold rtwin, do_reset; simpl. repeat split; try lia; try congruence.
+    apply (reset_rel (since b)); [exact He | exact (Hok Hdb)].
+  - split; [repeat split; assumption|]. destruct (ds b); simpl in Ed; congruence.
+Qed.
+
+Lemma update_rtwin k a b x : rtwin k a b -> rtwin k (update a x) (update b x).
+Proof.
+  intros H. apply pre_rtwin in H. destruct H as [(He & Hs & Hd & Ht & Hr & Hn & Hok) Hnd].
+  rewrite !update_eq. cbv zeta. rewrite Hs.
+  destruct (step_rel (since (pre K b)) _ _ x Hn He) as [Hod Hrel].
+  rewrite Hod. unfold rtwin; simpl. repeat split; try lia; try assumption.
+  - rewrite Hd. reflexivity.
+  - rewrite Hr. replace (total (pre K a) + 1 - 1) with ((total (pre K b) + 1 - 1) + k) by lia.
+    apply apply_policy_shift.
+  - destruct (snd (step_e K (epoch (pre K b)) (since (pre K b) + 1) x)) as [d|] eqn:Eod.
+    + intros ->. apply (drift_needs _ _ _ Eod).
+    + intros Hb. contradiction.
+Qed.
+
+Lemma observe_rtwin k a b : rtwin k a b -> observe a = shift_obs k (observe b).
+Proof.
+  intros (He & Hs & Hd & Ht & Hr & _). unfold observe, shift_obs. simpl. rewrite Hs, Hd, Ht, Hr. reflexivity.
+Qed.
+
+Theorem trace_rtwin k : forall xs a b, rtwin k a b -> trace a xs = map (shift_obs k) (trace b xs).
+Proof.
+  induction xs as [|x xs IH]; intros a b H; simpl; [reflexivity|].
+  pose proof (update_rtwin k a b x H) as H'. rewrite (observe_rtwin k _ _ H'). f_equal. apply IH. exact H'.
+Qed.
+
+End RelTwin.
